@@ -51,9 +51,10 @@ def abs_value(v, memo=None, depth=0):
     # ---- objects with identity
     key = id(v)
     if key in memo:
-        return ["ref", memo[key]]
-    memo[key] = len(memo)
-    me = memo[key]
+        return ["ref", memo[key][0]]
+    # keep v alive while abstracting: ids of dead temporaries (get_state() dicts, tocoo() copies) get re-used
+    memo[key] = (len(memo), v)
+    me = memo[key][0]
     if isinstance(v, np.ma.MaskedArray):
         return ["obj", me, tname(t), ["masked", abs_value(np.asarray(v.data), memo, depth + 1), abs_value(np.asarray(np.ma.getmaskarray(v)), memo, depth + 1)]]
     if isinstance(v, np.ndarray):
